@@ -165,3 +165,44 @@ pub fn run_tdigest_ops(ctx: &Ctx, which: u8, runs: u64) {
         }
     }
 }
+
+/// Run the structured `sketch_ops` target and report artifacts that decode to a case of the given
+/// property (`which`: 0 = C02, 1 = C09, 2 = C10) through that property's own oracle.
+pub fn run_sketch_ops(ctx: &Ctx, which: u8, runs: u64) {
+    use crate::engine::{guarded_eval, Verdict};
+    use crate::props::{c02, c09, c10, fuzzdecode};
+    use arbitrary::Unstructured;
+    let Some(o) = run_libfuzzer(ctx, "sketch_ops", runs, 1024) else { return };
+    ctx.add_evaluations(
+        "libfuzzer_sketch_ops",
+        o.executed,
+        serde_json::json!({"engine": "libFuzzer", "target": "sketch_ops (bytes decoded into C02/C09/C10 cases)", "executed_units": o.executed, "corpus_seeded_from": "harness/fuzz/seeds/sketch_ops"}),
+    );
+    ctx.note("libfuzzer_sketch_ops", o.note.clone());
+    for a in &o.artifacts {
+        let Ok(bytes) = std::fs::read(a) else { continue };
+        let mut u = Unstructured::new(&bytes);
+        let Ok(w) = u.int_in_range(0u8..=2) else { continue };
+        let (sub, case, verdict): (&str, serde_json::Value, Verdict) = match w {
+            0 => match fuzzdecode::c02(&mut u) {
+                Ok(c) => (crate::engine::Check::name(&c02::C02), serde_json::to_value(&c).unwrap(), guarded_eval(&c02::C02, &c)),
+                Err(_) => continue,
+            },
+            1 => match fuzzdecode::c09(&mut u) {
+                Ok(c) => (crate::engine::Check::name(&c09::C09), serde_json::to_value(&c).unwrap(), guarded_eval(&c09::C09, &c)),
+                Err(_) => continue,
+            },
+            _ => match fuzzdecode::c10(&mut u) {
+                Ok(c) => (crate::engine::Check::name(&c10::C10), serde_json::to_value(&c).unwrap(), guarded_eval(&c10::C10, &c)),
+                Err(_) => continue,
+            },
+        };
+        if let Verdict::Fail { sig, msg } = verdict {
+            if w == which {
+                ctx.handle_fail(sub, &case, &sig, &format!("libFuzzer artifact {:?}: {}", a.file_name().unwrap(), msg), None);
+            } else {
+                ctx.note("libfuzzer_sketch_ops", format!("artifact {:?} violates the oracle of another property (target index {}): {} — run that property's check", a.file_name().unwrap(), w, sig));
+            }
+        }
+    }
+}
